@@ -130,6 +130,13 @@ impl<T> RawTable<T> {
     /// current elements, as well as some additional elements due to incremental resizing.
     #[cfg_attr(feature = "inline-more", inline)]
     pub(crate) fn shrink_to(&mut self, min_size: usize, hasher: impl Fn(&T) -> u64) {
+        // If the old table has been emptied by removals (`erase` does not release it), release
+        // it now: otherwise we might leave no room at all in the main table while `leftovers`
+        // is still set, which `insert` does not allow.
+        if self.leftovers.as_ref().map_or(false, |lo| lo.table.len() == 0) {
+            let _ = self.leftovers.take();
+        }
+
         // Calculate the minimal number of elements that we need to reserve
         // space for.
         let mut need = self.table.len();
